@@ -6,6 +6,7 @@ import (
 	"go/types"
 	"regexp"
 	"sort"
+	"strconv"
 	"strings"
 
 	"golang.org/x/tools/go/ssa"
@@ -554,6 +555,15 @@ func constCond(c *Canon, v ssa.Value, depth int) (bool, bool) {
 	if u, ok := v.(*ssa.UnOp); ok && u.Op.String() == "!" {
 		bv, ok := constCond(c, u.X, depth+1)
 		return !bv, ok
+	}
+	// a comparison of two literals (a helper's constant result against a keyword once the
+	// helper is expanded and the merge resolved along the path)
+	if b, ok := v.(*ssa.BinOp); ok && (b.Op == token.EQL || b.Op == token.NEQ) {
+		x, errx := strconv.Unquote(c.Of(b.X))
+		y, erry := strconv.Unquote(c.Of(b.Y))
+		if errx == nil && erry == nil {
+			return (x == y) == (b.Op == token.EQL), true
+		}
 	}
 	return false, false
 }
